@@ -10,6 +10,7 @@
 typedef std::function<void(const std::vector<std::string> &args, const std::vector<std::string> &lines)> EngineFn;
 void registerEngine(const std::string &name, EngineFn f);
 void outLine(const std::string &s);
+extern bool g_mute;
 unsigned watchdogSeconds();
 void registerAllEngines();
 
